@@ -167,6 +167,28 @@ def check_filter(ctx: Ctx, rep: Report, wm: WalkModel, r1: str = "C01-R1", r2: s
         rep.check(ok, r1, wm.walk.site(call), "the filter is given the walk's own root list (not the continuation list of the current round)", detail, key=f"{wm.walk.key}|filter-roots-arg")
         sarg = bound.get(seen_param) if seen_param else None
         seen_names.add(sarg.id if isinstance(sarg, ast.Name) else f"<{norm(sarg) if sarg is not None else None}>")
+    # the seen-set only ever grows while the walk runs: forgetting OIDs re-admits the overrun of an earlier column
+    shrink = []
+    scope_fns = [wm.walk, g] + [c for n in own_nodes(wm.walk.node) if isinstance(n, ast.Call) for c in ctx.r.callees(wm.walk, n) if isinstance(c, FuncInfo) and not c.module.external and c.module.name.startswith("puresnmp")]
+    seen_local = next(iter(seen_names)) if len(seen_names) == 1 else None
+    for sf in {f.key: f for f in scope_fns}.values():
+        # names under which the seen-set is known in this function
+        names_here = set()
+        if sf is wm.walk and seen_local:
+            names_here.add(seen_local)
+        if sf is g and seen_param:
+            names_here.add(seen_param)
+        for n in own_nodes(wm.walk.node):
+            if isinstance(n, ast.Call) and sf in [c for c in ctx.r.callees(wm.walk, n) if isinstance(c, FuncInfo)] and seen_local:
+                for pname, arg in bind_call_args(n, sf.params, skip_self=sf.cls is not None).items():
+                    if isinstance(arg, ast.Name) and arg.id == seen_local:
+                        names_here.add(pname)
+        for n in own_nodes(sf.node):
+            if isinstance(n, ast.Call) and isinstance(n.func, ast.Attribute) and isinstance(n.func.value, ast.Name) and n.func.value.id in names_here and n.func.attr in ("discard", "remove", "clear", "pop", "difference_update", "intersection_update", "symmetric_difference_update"):
+                shrink.append(f"{sf.qualname}:{n.lineno} {norm(n)[:50]}")
+            if isinstance(n, ast.AugAssign) and isinstance(n.target, ast.Name) and n.target.id in names_here and isinstance(n.op, (ast.Sub, ast.BitAnd, ast.BitXor)):
+                shrink.append(f"{sf.qualname}:{n.lineno} {norm(n)[:50]}")
+    rep.check(not shrink, r2, wm.walk.site(), "the seen-set only grows during a walk (nothing delivered is ever forgotten)", "; ".join(shrink[:3]), key=f"{wm.walk.key}|seen-set-shrinks")
     one = len(seen_names) == 1
     created_once = False
     if one:
@@ -326,6 +348,10 @@ def check_group(ctx: Ctx, rep: Report, wm: WalkModel) -> None:
     if not found:
         ok = None
         detail = "positional regrouping loop not recognised"
+    zips = [n for n in own_nodes(g.node) if isinstance(n, ast.Call) and isinstance(n.func, ast.Name) and n.func.id == "zip" and any(isinstance(a, ast.Starred) for a in n.args)]
+    if zips:
+        rep.violated("C01-R4", g.site(zips[0]), "regrouping keeps every binding of a partial last row", f"`{norm(zips[0])[:60]}` transposes rows with zip(): zip stops at the shortest row, so the bindings of a partial last row (legal GETBULK truncation, endOfMibView cut-off) are dropped for the columns after the cut", key=f"{g.key}|zip-transposition")
+        ok = False if ok is None else ok
     rep.check(ok, "C01-R4", site, "slice i of the interleaved bindings is bindings[i::n] with n = len(requested) and is keyed by requested[i], for i in range(n)", detail, key=f"{g.key}|stride-offset-key")
     if user_param is None:
         rep.undecided("C01-R4", site, "regrouping maps continuation OIDs back to user roots", "no user-roots parameter")
@@ -543,6 +569,7 @@ def check_markers(ctx: Ctx, rep: Report, wm: WalkModel) -> None:
                 stores = [i for i, s in enumerate(body) if any(isinstance(c, ast.Call) and isinstance(c.func, ast.Attribute) and c.func.attr == "append" for c in ast.walk(s)) or (isinstance(s, ast.Assign) and isinstance(s.targets[0], ast.Subscript))]
                 ok = idx is not None and bool(stores) and all(i > idx for i in stores)
             rep.check(ok, "C01-R7", owner.site(st), f"{f.qualname}: the endOfMibView test precedes the store of the binding in the result loop", key=f"{owner.key}|marker-guard-order")
+            rep.check(kind in ("break", "return"), "C01-R7", owner.site(st), f"{f.qualname}: at an endOfMibView binding the result loop is left (suffix cut): skipping single bindings would shift every later binding into another root's column", f"cut kind: {kind}", key=f"{owner.key}|marker-continue")
 
 
 # ---------------------------------------------------------------- R8
